@@ -94,7 +94,15 @@ impl<T> Signal<T> {
             return v == UNLOCKED;
         }
 
+        #[cfg(kanal_verif)]
+        let mut verif_knob = crate::verif::rt::SpinKnob::new(2);
         for _ in 0..32 {
+            #[cfg(kanal_verif)]
+            {
+                if verif_knob.exhausted() {
+                    break;
+                }
+            }
             //backoff::spin_wait(96);
             backoff::yield_now_std();
             let v = self.state.load(Ordering::Relaxed);
@@ -128,7 +136,15 @@ impl<T> Signal<T> {
             fence(Ordering::Acquire);
             return v == UNLOCKED;
         }
+        #[cfg(kanal_verif)]
+        let mut verif_knob = crate::verif::rt::SpinKnob::new(0);
         for _ in 0..256 {
+            #[cfg(kanal_verif)]
+            {
+                if verif_knob.exhausted() {
+                    break;
+                }
+            }
             backoff::yield_now_std();
             let v = self.state.load(Ordering::Relaxed);
             if v < LOCKED {
@@ -166,7 +182,15 @@ impl<T> Signal<T> {
     /// Waits for the signal event in sync mode with a timeout
     pub(crate) fn wait_timeout(&self, until: Instant) -> bool {
         if get_parallelism() > 1 {
+            #[cfg(kanal_verif)]
+            let mut verif_knob = crate::verif::rt::SpinKnob::new(1);
             for _ in 0..32 {
+                #[cfg(kanal_verif)]
+                {
+                    if verif_knob.exhausted() {
+                        break;
+                    }
+                }
                 let v = self.state.load(Ordering::Relaxed);
                 if v < LOCKED {
                     fence(Ordering::Acquire);
